@@ -202,6 +202,7 @@ func ruleE5(p *Program, c *Check, min int) {
 		}
 	}
 	c.usedTypes = usedTypes
+	c.anchoredFuncs = anchored
 	for _, sp := range pairs {
 		if !anchored[sp.Key] {
 			continue
